@@ -1,6 +1,12 @@
 #!/usr/bin/env python3
 """Re-run every kept seeded defect against the current checks.
-usage: tools/seed_regress.py [--tier quick] [NAME...]   (applies + always undoes each patch)"""
+usage: tools/seed_regress.py [--tier quick] [NAME...]
+
+Each patch is applied to a scratch git worktree of /repo's HEAD under /tmp (removed
+afterwards) and the check is pointed at it (VERIF_REPO), with its evidence going to a
+scratch directory: /repo's working tree and the committed evidence stay untouched.
+(tools/seed_keep.py - the confirmation of a new seed - applies the patch to /repo
+itself and undoes it.)"""
 import json
 import os
 import subprocess
@@ -21,6 +27,11 @@ def main():
     if sh("git -C /repo status --porcelain").stdout.strip():
         print("REPO DIRTY - abort")
         return 2
+    wt = "/tmp/seedreg_wt"
+    sh(f"git -C /repo worktree remove --force {wt}; rm -rf {wt}")
+    if sh(f"git -C /repo worktree add --detach {wt} HEAD").returncode != 0:
+        print("cannot create scratch worktree")
+        return 2
     rows = []
     for name in sorted(os.listdir(root)):
         d = os.path.join(root, name)
@@ -28,17 +39,20 @@ def main():
             continue
         meta = json.load(open(os.path.join(d, "meta.json")))
         prop = meta["breaks_property"]
-        if sh(f"git -C /repo apply {d}/patch.diff").returncode != 0:
+        if sh(f"git -C {wt} apply {d}/patch.diff").returncode != 0:
             rows.append((name, prop, "PATCH-FAILS", 0))
+            print(*rows[-1], flush=True)
             continue
         try:
             t0 = time.time()
-            r = sh(f"cd {VERIF} && ./check {prop} --tier {tier}", timeout=3600)
+            r = sh(f"cd {VERIF} && VERIF_REPO={wt} VERIF_EVIDENCE_DIR=/tmp/seedreg_ev "
+                   f"./check {prop} --tier {tier}", timeout=3600)
             rows.append((name, prop, {0: "MISSED", 1: "caught", 2: "HARNESS-ERROR"}.get(
                 r.returncode, str(r.returncode)), round(time.time() - t0, 1)))
         finally:
-            sh("git -C /repo checkout -- .")
+            sh(f"git -C {wt} checkout -- . && git -C {wt} clean -fdq")
         print(*rows[-1], flush=True)
+    sh(f"git -C /repo worktree remove --force {wt}; rm -rf {wt} /tmp/seedreg_ev")
     missed = [r for r in rows if r[2] != "caught"]
     print(f"{len(rows) - len(missed)}/{len(rows)} caught; not caught: {[r[0] for r in missed]}")
     with open(os.path.join(root, "REGRESS.json"), "w") as f:
